@@ -863,7 +863,17 @@ class CSemantics:
 
             # Booleans are integer type:
             result_typ = self.int_type
-        elif op in ["<<", ">>", "|", "&", "^"]:  # Bit shifting operators
+        elif op in ["<<", ">>"]:  # Bit shifting operators
+            self.ensure_integer(lhs)
+            self.ensure_integer(rhs)
+
+            # The integer promotions are performed on each operand, and
+            # the result has the type of the promoted left operand:
+            lhs = self.promote(lhs)
+            rhs = self.promote(rhs)
+            result_typ = lhs.typ
+            rhs = self.coerce(rhs, result_typ)
+        elif op in ["|", "&", "^"]:  # Bitwise operators
             self.ensure_integer(lhs)
             self.ensure_integer(rhs)
 
